@@ -671,3 +671,28 @@ func (e *Exec) assertArgsNotOwned(st *State, fr *Frame, args []*Value) {
 		}
 	}
 }
+
+// pathLabelOf: "/loop:<ord>[label]" of the innermost enclosing labelled loop of the current block ("" if none).
+func (e *Exec) pathLabelOf(st *State, fr *Frame) string {
+	for h, snap := range fr.loopSnap {
+		if snap == nil || snap.spec == nil || snap.spec.LabelBy == "" || fr.cur == nil || !loopBodyCached(h)[fr.cur] {
+			continue
+		}
+		env := &SpecEnv{e: e, st: st, old: fr.entryState, vars: map[string]*Value{}, fn: fr.fn, bound: map[string]*Value{}}
+		env.lookup = e.nameLookup(st, fr, h)
+		return fmt.Sprintf("/loop:%s%s", snap.ord, e.pathLabel(st, fr, snap.spec, env))
+	}
+	return ""
+}
+
+// rvIsValid: (reflect.Value).IsValid as the engine models it.
+func rvIsValid(rv *Term) *Term {
+	return UF(sanitize("(reflect.Value).IsValid")+"_00", SBool, rv)
+}
+
+func init() {
+	// isvalid(v): a reflect.Value is not the zero Value
+	specFuncs["isvalid"] = func(env *SpecEnv, a []*Value) *Value {
+		return &Value{T: tBool, L: []*Term{rvIsValid(a[0].One())}}
+	}
+}
